@@ -30,12 +30,12 @@ func TMerc(this *SR) (forward, inverse Transformer, err error) {
 			if (math.Abs(math.Abs(b) - 1)) < 0.0000000001 {
 				return math.NaN(), math.NaN(), fmt.Errorf("in proj.TMerc forward: b == 0")
 			}
-			x = 0.5 * this.A * this.K0 * math.Log((1+b)/(1-b))
+			x = 0.5*this.A*this.K0*math.Log((1+b)/(1-b)) + this.X0
 			con = math.Acos(cos_phi * math.Cos(delta_lon) / math.Sqrt(1-b*b))
 			if lat < 0 {
 				con = -con
 			}
-			y = this.A * this.K0 * (con - this.Lat0)
+			y = this.A*this.K0*(con-this.Lat0) + this.Y0
 
 		} else {
 			var al = cos_phi * delta_lon
@@ -63,9 +63,9 @@ func TMerc(this *SR) (forward, inverse Transformer, err error) {
 		const max_iter = 6
 
 		if this.sphere {
-			var f = math.Exp(x / (this.A * this.K0))
+			var f = math.Exp((x - this.X0) / (this.A * this.K0))
 			var g = 0.5 * (f - 1/f)
-			var temp = this.Lat0 + y/(this.A*this.K0)
+			var temp = this.Lat0 + (y-this.Y0)/(this.A*this.K0)
 			var h = math.Cos(temp)
 			con = math.Sqrt((1 - h*h) / (1 + g*g))
 			lat = asinz(con)
